@@ -85,15 +85,128 @@ func forkEpochLess(e ast.Expr) (string, bool) {
 
 // forkEpochCmp: any ordering comparison `x OP S.F_FORK_EPOCH`.
 func forkEpochCmp(e ast.Expr) (string, token.Token, bool) {
-	be, ok := ast.Unparen(e).(*ast.BinaryExpr)
+	e = ast.Unparen(e)
+	neg := false
+	for {
+		u, ok := e.(*ast.UnaryExpr)
+		if !ok || u.Op != token.NOT {
+			break
+		}
+		neg = !neg
+		e = ast.Unparen(u.X)
+	}
+	be, ok := e.(*ast.BinaryExpr)
 	if !ok || (be.Op != token.LSS && be.Op != token.LEQ && be.Op != token.GTR && be.Op != token.GEQ) {
 		return "", 0, false
 	}
-	sel, ok := ast.Unparen(be.Y).(*ast.SelectorExpr)
-	if !ok || !strings.HasSuffix(sel.Sel.Name, "_FORK_EPOCH") {
-		return "", 0, false
+	op := be.Op
+	if neg {
+		op = negOp[op]
 	}
-	return strings.TrimSuffix(sel.Sel.Name, "_FORK_EPOCH"), be.Op, true
+	// written either way round: x < S.F_FORK_EPOCH or S.F_FORK_EPOCH > x
+	if sel, ok := ast.Unparen(be.Y).(*ast.SelectorExpr); ok && strings.HasSuffix(sel.Sel.Name, "_FORK_EPOCH") {
+		return strings.TrimSuffix(sel.Sel.Name, "_FORK_EPOCH"), op, true
+	}
+	if sel, ok := ast.Unparen(be.X).(*ast.SelectorExpr); ok && strings.HasSuffix(sel.Sel.Name, "_FORK_EPOCH") {
+		return strings.TrimSuffix(sel.Sel.Name, "_FORK_EPOCH"), flipOp[op], true
+	}
+	return "", 0, false
+}
+
+// forkChain: the same decision list, whether written as if / else-if / else, as a tagless switch with a default, or
+// as consecutive `if … { return … }` statements closed by a return.
+type forkChainBr struct {
+	cond ast.Expr
+	body *ast.BlockStmt
+	pos  token.Pos
+	init bool
+}
+type forkChain struct {
+	pos     token.Pos
+	brs     []forkChainBr
+	elseB   *ast.BlockStmt
+	elsePos token.Pos
+}
+
+func forkChainsIn(body *ast.BlockStmt) []forkChain {
+	var out []forkChain
+	isFE := func(e ast.Expr) bool { _, _, ok := forkEpochCmp(e); return ok }
+	scan := func(list []ast.Stmt) {
+		for i := 0; i < len(list); i++ {
+			switch st := list[i].(type) {
+			case *ast.IfStmt:
+				if !isFE(st.Cond) {
+					continue
+				}
+				ch := forkChain{pos: st.Pos()}
+				cur := st
+				for {
+					ch.brs = append(ch.brs, forkChainBr{cur.Cond, cur.Body, cur.Pos(), cur.Init != nil})
+					switch e := cur.Else.(type) {
+					case *ast.IfStmt:
+						cur = e
+						continue
+					case *ast.BlockStmt:
+						ch.elseB, ch.elsePos = e, e.Pos()
+					}
+					break
+				}
+				if ch.elseB == nil {
+					// early returns: further ifs of the same kind, then the closing return
+					j := i + 1
+					for j < len(list) {
+						nx, ok := list[j].(*ast.IfStmt)
+						if !ok || nx.Else != nil || !isFE(nx.Cond) || !terminates(ch.brs[len(ch.brs)-1].body) {
+							break
+						}
+						ch.brs = append(ch.brs, forkChainBr{nx.Cond, nx.Body, nx.Pos(), nx.Init != nil})
+						j++
+					}
+					if j < len(list) && terminates(ch.brs[len(ch.brs)-1].body) {
+						if r, ok := list[j].(*ast.ReturnStmt); ok {
+							ch.elseB, ch.elsePos = &ast.BlockStmt{List: []ast.Stmt{r}}, r.Pos()
+							j++
+						}
+					}
+					i = j - 1
+				}
+				out = append(out, ch)
+			case *ast.SwitchStmt:
+				if st.Tag != nil || st.Init != nil {
+					continue
+				}
+				ch := forkChain{pos: st.Pos()}
+				okSw := len(st.Body.List) > 0
+				for _, cs := range st.Body.List {
+					cc := cs.(*ast.CaseClause)
+					blk := &ast.BlockStmt{List: cc.Body, Lbrace: cc.Colon}
+					switch {
+					case cc.List == nil:
+						ch.elseB, ch.elsePos = blk, cc.Pos()
+					case len(cc.List) == 1 && isFE(cc.List[0]) && ch.elseB == nil:
+						ch.brs = append(ch.brs, forkChainBr{cc.List[0], blk, cc.Pos(), false})
+					default:
+						okSw = false
+					}
+				}
+				if okSw && len(ch.brs) > 0 {
+					out = append(out, ch)
+				}
+			}
+		}
+	}
+	ast.Inspect(body, func(n ast.Node) bool {
+		switch x := n.(type) {
+		case *ast.BlockStmt:
+			scan(x.List)
+		case *ast.CaseClause:
+			scan(x.Body)
+		case *ast.CommClause:
+			scan(x.Body)
+		}
+		return true
+	})
+	return out
 }
 
 func forkEpochLessOld(e ast.Expr) (string, bool) {
@@ -142,14 +255,11 @@ func ruleForkChain(c *Ctx) {
 	}
 	chains := 0
 	c.P.funcDecls(func(pk *packages.Package, fd *ast.FuncDecl) {
-		ast.Inspect(fd.Body, func(n ast.Node) bool {
-			ifs, ok := n.(*ast.IfStmt)
-			if !ok {
-				return true
-			}
-			if _, _, ok := forkEpochCmp(ifs.Cond); !ok {
-				return true
-			}
+		if fd.Body == nil {
+			return
+		}
+		for _, ch := range forkChainsIn(fd.Body) {
+			ifs := ch
 			// collect chain
 			type br struct {
 				fork string
@@ -159,35 +269,27 @@ func ruleForkChain(c *Ctx) {
 			}
 			var brs []br
 			var elseRet ast.Expr
-			var elsePos token.Pos
-			cur := ifs
+			elsePos := ch.elsePos
 			wellFormed := true
-			for {
-				f, op, ok := forkEpochCmp(cur.Cond)
-				if !ok || cur.Init != nil {
+			for _, cb := range ch.brs {
+				f, op, ok := forkEpochCmp(cb.cond)
+				if !ok || cb.init {
 					wellFormed = false
 					break
 				}
-				brs = append(brs, br{f, singleReturnExpr(cur.Body), cur.Pos(), op})
-				switch e := cur.Else.(type) {
-				case *ast.IfStmt:
-					cur = e
-					continue
-				case *ast.BlockStmt:
-					elseRet = singleReturnExpr(e)
-					elsePos = e.Pos()
-				case nil:
-				}
-				break
+				brs = append(brs, br{f, singleReturnExpr(cb.body), cb.pos, op})
+			}
+			if ch.elseB != nil {
+				elseRet = singleReturnExpr(ch.elseB)
 			}
 			if len(brs) < 2 {
-				return true // a single fork-epoch comparison is not a chain
+				continue // a single fork-epoch comparison is not a chain
 			}
 			chains++
 			name := pkgShort(pk.Types) + "." + funcName(fd)
 			if !wellFormed {
-				c.unm(name, ifs.Pos(), "fork-epoch chain mixed with other conditions")
-				return false
+				c.unm(name, ifs.pos, "fork-epoch chain mixed with other conditions")
+				continue
 			}
 			for i, b := range brs {
 				key := name + "[<" + b.fork + "]"
@@ -221,7 +323,7 @@ func ruleForkChain(c *Ctx) {
 			last := brs[len(brs)-1].fork
 			key := name + "[else]"
 			if elseRet == nil {
-				c.unm(key, ifs.Pos(), "no final else with a single return")
+				c.unm(key, ifs.pos, "no final else with a single return")
 			} else if got := forkOfItem(pk.TypesInfo, elseRet); got == "" {
 				c.unm(key, elsePos, "else expression %s not recognised", types.ExprString(elseRet))
 			} else if got != last {
@@ -231,12 +333,11 @@ func ruleForkChain(c *Ctx) {
 			}
 			key = name + "[complete]"
 			if idx[last] != len(forks)-1 {
-				c.bad(key, ifs.Pos(), "chain stops at %s; registry continues to %s (epochs of later forks get the wrong item)", last, forks[len(forks)-1])
+				c.bad(key, ifs.pos, "chain stops at %s; registry continues to %s (epochs of later forks get the wrong item)", last, forks[len(forks)-1])
 			} else {
-				c.ok(key, ifs.Pos(), "covers all %d forks", len(forks))
+				c.ok(key, ifs.pos, "covers all %d forks", len(forks))
 			}
-			return false
-		})
+		}
 	})
 	c.stat("chains", chains)
 	if chains < 2 {
@@ -456,17 +557,36 @@ func ruleForkRegistry(c *Ctx) {
 			}
 			return true
 		})
-		// the condition must be `ok && slot == Slot(epoch)*SLOTS_PER_EPOCH`
+		// the condition must be `ok && slot == <epoch>_FORK_EPOCH * SLOTS_PER_EPOCH`, the product in any spelling
+		// (possibly through a helper that only returns it)
 		condOK := false
-		if be, ok := ast.Unparen(ifs.Cond).(*ast.BinaryExpr); ok && be.Op == token.LAND {
-			if eq, ok := ast.Unparen(be.Y).(*ast.BinaryExpr); ok && eq.Op == token.EQL {
-				if mul, ok := ast.Unparen(eq.Y).(*ast.BinaryExpr); ok && mul.Op == token.MUL {
-					if sel, ok := ast.Unparen(mul.Y).(*ast.SelectorExpr); ok && sel.Sel.Name == "SLOTS_PER_EPOCH" {
-						condOK = true
-					}
+		polyInline = inlinableFuncs(c.P)
+		for _, leaf := range flattenBool(ifs.Cond, token.LAND) {
+			_, p, op := condCutOf(pk.TypesInfo, leaf, map[types.Object]localDef{})
+			if p == nil || op != token.EQL || p[""] != 0 {
+				continue
+			}
+			prod, single := "", ""
+			n := 0
+			for a := range p {
+				if a == "" {
+					continue
+				}
+				n++
+				if strings.Contains(a, "*") {
+					prod = a
+				} else {
+					single = a
+				}
+			}
+			if n == 2 && single != "" && p[prod]*p[single] == -1 {
+				parts := strings.Split(prod, "*")
+				if len(parts) == 2 && ((strings.HasSuffix(parts[0], "_FORK_EPOCH") && parts[1] == "SLOTS_PER_EPOCH") || (strings.HasSuffix(parts[1], "_FORK_EPOCH") && parts[0] == "SLOTS_PER_EPOCH")) {
+					condOK = true
 				}
 			}
 		}
+		polyInline = nil
 		// upgrade function called
 		var upFn *types.Func
 		ast.Inspect(ifs.Body, func(m ast.Node) bool {
